@@ -36,7 +36,8 @@ def scenarios(tier):
             waitmode='once'):
         S.append({'id': 's%d' % len(S), 'target': target, 'where': where, 'args': list(args), 'kwargs': kwargs or {}, 'kinds': list(kinds),
                   'factory': factory, 'run': run, 'target_none': target_none, 'vclass': vclass, 'waitmode': waitmode})
-    small = ['none', 'zero', 'false', 'empty_str', 'empty_list', 'empty_dict', 'float', 'int', 'str', 'tuple', 'nested', 'point', 'points', 'datetime', 'decimal']
+    small = ['none', 'zero', 'false', 'empty_str', 'empty_list', 'empty_dict', 'float', 'int', 'str', 'tuple', 'nested', 'point', 'points', 'datetime', 'decimal',
+             'copyreg', 'copyreg_nested', 'copyreg_late']
     sizes = ['b0', 'b1', 'b4k', 'b64k-1', 'b64k', 'b64k+1', 'b256k', 'b1m'] + (['b4m'] if tier == 'thorough' else [])
     for v in small:
         add('mod_value', 'module', (v,))
